@@ -80,7 +80,7 @@ def size_perturbations(L, case, ref):
         lo, hi = L.limits(t)
         reg = regions.get(path)
         cands = {}
-        for k in (1, 2, 5):
+        for k in (1, 2, 3, 4, 5, 8):
             cands[f"-{k}"] = v - k
             cands[f"+{k}"] = v + k
         cands["zero"] = 0
